@@ -4,8 +4,9 @@
   arbitrary states, keys, elements and indices, stated with plain list operations; composed
   read-your-writes laws; and witnesses of the inputs on which the full statement fails (each one a class
   of Known.classifyColl). `_partial` theorems carry the precise hypothesis that excludes a deviation.
-  LRANGE, LTRIM, LREM and LMOVE-from-an-empty-list were repaired upstream: their laws are unconditional
-  (every index, every count, every list) and the handlers are shown never to panic.
+  LRANGE, LTRIM, LREM and LMOVE (empty source, same key) were repaired upstream: their laws are unconditional
+  (every index, every count, every list) and the handlers are shown never to panic. The one deviation left
+  in this family is `expired-key-still-exists` (shared with the other families).
 -/
 import SugarModel.Lemmas.ListLemmas
 namespace Sugar.Props.C15
@@ -534,8 +535,8 @@ theorem dir_facts :
 
 /-- **LMOVE transfers one element between two distinct lists in one step**: the element at the chosen end
     of the source is removed and put at the chosen end of the destination; deadlines and all other keys
-    are untouched. (Same key: `lmove_same_key_duplicates_witness`; empty source: `lmove_empty_source`.) -/
-theorem lmove_partial (fromLeft toLeft : Bool) (c : Ctx) (s : State) (src dst e : Bytes) (sl dl : List Bytes)
+    are untouched. (Same key: `lmove_same_key_rotates`; empty source: `lmove_empty_source`.) -/
+theorem lmove_transfers (fromLeft toLeft : Bool) (c : Ctx) (s : State) (src dst e : Bytes) (sl dl : List Bytes)
     (exs exd : Option Int) (hm : c.cfg.maxMemory = 0) (hne : src ≠ dst)
     (hs : s.lookup c.db src = some ⟨.list sl, exs⟩) (hslive : (⟨.list sl, exs⟩ : Entry).expired c.now = false)
     (hd : s.lookup c.db dst = some ⟨.list dl, exd⟩) (hdlive : (⟨.list dl, exd⟩ : Entry).expired c.now = false)
@@ -552,7 +553,49 @@ theorem lmove_partial (fromLeft toLeft : Bool) (c : Ctx) (s : State) (src dst e 
   have hsl : sl ≠ [] := by intro h0; subst h0; cases fromLeft <;> simp at he
   cases fromLeft <;> cases toLeft <;>
     simp only [Bool.false_eq_true, if_false, if_true, List.drop_one] at he p1 ⊢ <;>
-    simp [handleLMove, dirTok, dir_facts, keysExist_pair, hs, hd, hg, asList?, he, setOrErr, p1, hsl]
+    simp [handleLMove, dirTok, dir_facts, keysExist_pair, hs, hd, hg, asList?, he, setOrErr, p1, hsl, hne]
+
+/-- the list with the element at the chosen end taken out and put back at the chosen end -/
+def rotated (fromLeft toLeft : Bool) (sl : List Bytes) (e : Bytes) : List Bytes :=
+  let rest := if fromLeft then sl.drop 1 else sl.dropLast
+  if toLeft then e :: rest else rest ++ [e]
+
+/-- **LMOVE with the same key as source and destination rotates the list**: the element at the chosen end is
+    taken out and put back at the chosen end of what is left — it is in the list once, not twice; the
+    deadline and all other keys are untouched -/
+theorem lmove_same_key_rotates (fromLeft toLeft : Bool) (c : Ctx) (s : State) (k e : Bytes) (sl : List Bytes)
+    (ex : Option Int) (hm : c.cfg.maxMemory = 0)
+    (hs : s.lookup c.db k = some ⟨.list sl, ex⟩) (hslive : (⟨.list sl, ex⟩ : Entry).expired c.now = false)
+    (he : (if fromLeft then sl.head? else sl.getLast?) = some e) :
+    ∃ s', (handleLMove c [b "lmove", k, k, dirTok fromLeft, dirTok toLeft]).run c s = (s', .done (.ok okReply)) ∧
+      s'.lookup c.db k = some ⟨.list (rotated fromLeft toLeft sl e), ex⟩ ∧
+      ∀ k2, k ≠ k2 → s'.lookup c.db k2 = s.lookup c.db k2 := by
+  refine ⟨(setValues c s [(k, .list (rotated fromLeft toLeft sl e))]).1, ?_,
+    setValues_over c s k _ _ ex hm hs, fun k2 hne => setValues_other c s k k2 _ hm hne⟩
+  have hs1 := (setValues_single c s k (.list (rotated fromLeft toLeft sl e)) hm).1
+  have hg := getValues_live2 c s k k _ _ hs hslive hs hslive
+  have hsl : sl ≠ [] := by intro h0; subst h0; cases fromLeft <;> simp at he
+  cases fromLeft <;> cases toLeft <;>
+    simp only [Bool.false_eq_true, if_false, if_true, List.drop_one, rotated] at he hs1 ⊢ <;>
+    simp [handleLMove, dirTok, dir_facts, keysExist_pair, hs, hg, asList?, he, setOrErr, hsl, setValues_pair_same, hs1]
+
+/-- a rotation keeps the length; taking from and putting back at the same end leaves the list as it was -/
+theorem rotated_facts (fromLeft toLeft : Bool) (sl : List Bytes) (e : Bytes)
+    (he : (if fromLeft then sl.head? else sl.getLast?) = some e) :
+    (rotated fromLeft toLeft sl e).length = sl.length ∧ (fromLeft = toLeft → rotated fromLeft toLeft sl e = sl) := by
+  have hsl : sl ≠ [] := by intro h0; subst h0; cases fromLeft <;> simp at he
+  have hpos : 0 < sl.length := List.length_pos_iff.mpr hsl
+  refine ⟨?_, fun heq => ?_⟩
+  · cases fromLeft <;> cases toLeft <;> simp [rotated] <;> omega
+  · subst heq
+    cases fromLeft
+    · simp only [Bool.false_eq_true, if_false, rotated] at he ⊢
+      obtain ⟨ys, rfl⟩ := List.getLast?_eq_some_iff.mp he
+      simp
+    · simp only [if_true, rotated] at he ⊢
+      cases sl with
+      | nil => simp at he
+      | cons x r => simp at he; subst he; simp
 
 /-- **LMOVE from a stored empty list (left behind by LPOP / LTRIM / LREM) moves nothing**: it answers nil
     and the state is unchanged, whatever the directions and whether or not the two keys are the same -/
@@ -813,17 +856,13 @@ def s0 : State := { dbs := [(0, ⟨[(b "k", ⟨.list [b "a", b "b", b "c"], none
                                   (b "str", ⟨.str (b "v"), none⟩),
                                   (b "old", ⟨.list [b "x"], some 500⟩)], [b "d", b "old"]⟩)], mem := 0 }
 
-/-- class `lmove-same-key-duplicates`: LMOVE k k LEFT RIGHT on a b c leaves a b c a (rotation b c a expected) -/
-theorem lmove_same_key_duplicates_witness :
-    ((handleLMove c0 [b "lmove", b "k", b "k", b "LEFT", b "RIGHT"]).run c0 s0).1.lookup 0 (b "k")
-      = some ⟨.list [b "a", b "b", b "c", b "a"], none⟩ := by decide
-
 /-- class `expired-key-still-exists`: LLEN on a list whose deadline has passed answers a type error (0 expected) -/
 theorem llen_on_expired_witness :
     ((handleLLen c0 [b "llen", b "old"]).run c0 s0).2 = .done (.err (b "LLEN command on non-list item")) := by decide
 
 /-! ### the repaired inputs: the former witnesses of `lrange-negative-end-miscomputed`, `lrange-index-panic`,
-    `ltrim-index-panic`, `lrem-skips-adjacent-matches`, `lmove-empty-source-panic`, now instances of the laws -/
+    `ltrim-index-panic`, `lrem-skips-adjacent-matches`, `lmove-empty-source-panic`, `lmove-same-key-duplicates`,
+    now instances of the laws -/
 
 /-- LRANGE k 0 -2 on a b c returns a b (it used to return all three) -/
 theorem lrange_negative_end_repaired :
@@ -855,6 +894,15 @@ theorem lrem_adjacent_repaired :
 theorem lmove_empty_source_repaired :
     (handleLMove c0 [b "lmove", b "e", b "k", b "LEFT", b "RIGHT"]).run c0 s0 = (s0, .done (.ok nilBulk)) := by
   decide +kernel
+
+/-- LMOVE k k LEFT RIGHT on a b c leaves b c a (it used to leave a b c a) -/
+theorem lmove_same_key_repaired :
+    ((handleLMove c0 [b "lmove", b "k", b "k", b "LEFT", b "RIGHT"]).run c0 s0).1.lookup 0 (b "k")
+      = some ⟨.list [b "b", b "c", b "a"], none⟩ ∧
+    ((handleLMove c0 [b "lmove", b "k", b "k", b "RIGHT", b "LEFT"]).run c0 s0).1.lookup 0 (b "k")
+      = some ⟨.list [b "c", b "a", b "b"], none⟩ ∧
+    ((handleLMove c0 [b "lmove", b "k", b "k", b "LEFT", b "LEFT"]).run c0 s0).1.lookup 0 (b "k")
+      = some ⟨.list [b "a", b "b", b "c"], none⟩ := by decide +kernel
 
 /-! ### non-vacuity: every conditional theorem instantiated on the concrete state -/
 
@@ -891,8 +939,10 @@ example := lpop_head c0 s0 (b "k") _ _ _ rfl s0_k (by decide)
 example := rpop_last c0 s0 (b "k") _ (by decide) _ rfl s0_k (by decide)
 example := lpop_count c0 s0 (b "k") (b "2") 2 _ (by decide) _ rfl s0_k (by decide) (by decide) (by decide)
 example := rpop_count c0 s0 (b "k") (b "5") 5 _ (by decide) _ rfl s0_k (by decide) (by decide) (by decide)
-example := lmove_partial true false c0 s0 (b "k") (b "d") (b "a") _ _ _ _ rfl (by decide) s0_k (by decide) s0_d
+example := lmove_transfers true false c0 s0 (b "k") (b "d") (b "a") _ _ _ _ rfl (by decide) s0_k (by decide) s0_d
   (by decide) (by decide)
+example := lmove_same_key_rotates true false c0 s0 (b "k") (b "a") _ _ rfl s0_k (by decide) (by decide)
+example := rotated_facts false false [b "a", b "b", b "c"] (b "c") (by decide)
 example := lmove_empty_source true false c0 s0 (b "e") (b "k") _ none _ (by decide) (by decide) s0_k (by decide)
 example := wrongtype_no_change c0 s0 (b "str") _ _ s0_str (by decide) (by decide) (b "0") (b "1") (b "x") [] 0 1
   (by decide) (by decide)
